@@ -27,7 +27,7 @@ CHECKS = {
         text=("Theorems (records are opaque values): the chunks of a pass concatenate to the input for every length and "
               "chunk size >= 1 (reader state machine built from the generated stop test / counter / slice bounds); "
               "np.array_split loses nothing for every worker count; a patch writer flushes everything it received for "
-              "every buffer size (incl. -1); MAIN pipeline_multiset + arrivals_perm: for every chunk size, worker count, "
+              "every buffer size (incl. -1); groupby (stable-sort + runs model of argsort / unique / split) yields every key once, ascending, with exactly its values for any keys incl. gaps (groupby_spec); MAIN pipeline_multiset + arrivals_perm: for every chunk size, worker count, "
               "buffer size and every order in which the workers of each chunk deliver their parts, the data file of "
               "patch p is a permutation of the input records of patch p; sequential mode gives the exact sub-sequence; "
               "header byte round-trips all flag combinations. Tie: generated kernels + AST pins of groupby / PatchWriter "
@@ -217,9 +217,13 @@ CHECKS = {
         text=("Theorems about the reader state machine assembled from the generated kernels (stop test, counter update, "
               "slice bounds): one pass requests every record exactly once and in order (chunks concatenate to the "
               "input), every chunk has at most c records, requests are consecutive and start at row 0 - for all lengths "
-              "and chunk sizes >= 1; the probe / number-of-passes glue is pinned. Tie: an instrumented data-frame-like "
+              "and chunk sizes >= 1; the probe / number-of-passes glue is pinned. Parquet row-group cache (hand model of "
+              "_load_groups / _extract_chunk, pinned): every call hands out the next rows of the file in order (next_flatten, "
+              "run_flatten), a chunk has c rows or all that is left (next_length), and reading stays lazy - the row group "
+              "requested last is needed to cover the rows handed out (next_lazy). Tie: an instrumented data-frame-like "
               "source logs every slice and whole-column access of Catalog.from_dataframe in all patch modes; "
-              "FITS/HDF5/Parquet readers are compared by chunk lengths over two passes."),
+              "FITS/HDF5/Parquet readers are compared by chunk lengths and row content over two passes, Parquet also by the "
+              "row groups requested after every chunk (vs the model and vs the shortest-prefix rule)."),
         ref="5.C18", technique="Lean 4 theorems over generated reader kernels + instrumented-source correspondence",
         note="memory-mapped access below the file readers is not observed; pandas slicing trusted"),
 }
